@@ -78,18 +78,16 @@ structure Result where
   seeds : List Ind
 deriving Repr
 
-/-- `NearestBetterClustering(pop, φ, t).cluster()`; `mean` is NumPy's `np.mean(distances)`
-(environment; `none` for an empty list of distances, where the code uses 0.0). -/
-def cluster (mx : Bool) (dist : Nat → Nat → Rat) (pop : List Ind) (phi t : Rat) (mean : Option Rat) :
-    Option Result :=
-  (truncLen pop.length t).bind fun m =>
-  if m = 0 then none else
-  let s := (sortDesc mx (sortLex (List.zipIdx pop |>.map fun p => (p.2, p.1)))).take m
-  -- a second individual with an identical genome gets the same node id: the code skips it
-  let isDup := fun (j : Nat) => match s[j]? with
-    | some p => (s.take j).any fun q => q.2.genome == p.2.genome
-    | none => true
-  let idxs := (List.range (s.length - 1)).map (· + 1) |>.filter fun j => !isDup j
+/-- a second individual with an identical genome gets the same node id: the code skips it -/
+def isDupAt (s : List (Nat × Ind)) (j : Nat) : Bool :=
+  match s[j]? with
+  | some p => (s.take j).any fun q => q.2.genome == p.2.genome
+  | none => true
+
+/-- the part of the clustering after sorting and truncation: nearest-better distances of
+the kept, best-first population `s`, threshold, cut -/
+def clusterSorted (dist : Nat → Nat → Rat) (s : List (Nat × Ind)) (phi : Rat) (mean : Option Rat) : Option Result :=
+  let idxs := (List.range (s.length - 1)).map (· + 1) |>.filter fun j => !isDupAt s j
   let ds := idxs.filterMap fun j => nbDist dist s j
   if ds.length ≠ idxs.length then none else
   let mu : Rat := mean.getD 0
@@ -100,6 +98,14 @@ def cluster (mx : Bool) (dist : Nat → Nat → Rat) (pop : List Ind) (phi t : R
     let nodes := idxs.filterMap fun j => s[j]?
     let cut := (nodes.zip ds).filter fun pd => decide (pd.2 > thr)
     some { kept := s, dists := ds, seeds := root.2 :: cut.map (·.1.2) }
+
+/-- `NearestBetterClustering(pop, φ, t).cluster()`; `mean` is NumPy's `np.mean(distances)`
+(environment; `none` for an empty list of distances, where the code uses 0.0). -/
+def cluster (mx : Bool) (dist : Nat → Nat → Rat) (pop : List Ind) (phi t : Rat) (mean : Option Rat) :
+    Option Result :=
+  (truncLen pop.length t).bind fun m =>
+  if m = 0 then none else
+  clusterSorted dist ((sortDesc mx (sortLex (List.zipIdx pop |>.map fun p => (p.2, p.1)))).take m) phi mean
 
 /-- declarative definition (C15): the best individual plus every other kept individual
 whose distance to its nearest strictly better individual (tied with the best ⇒ the best)
